@@ -905,6 +905,12 @@ RUNNERS = {"tcp": run_stream, "udp": run_stream, "websocket": run_ws, "dns": run
 
 
 def check_case(case, ctx):
+    if case["part"] == "S":
+        # asyncio half on the deterministic simulator (lib/sim_intercept.py): real ProxyConnectionHandler + TimeoutWatchdog,
+        # real TCP/UDP layers, flow intercepted in a generated hook for a generated virtual time across the idle timeout
+        import sim_intercept
+        sim_intercept.check_case(case, ctx)
+        return
     if case["part"] == "B":
         run_async(case, ctx)
         return
@@ -943,7 +949,8 @@ def strategy(ctx):
                                  "stream": _stream, "extras": _extras, "action": _action})
     partb = st.fixed_dictionaries({"part": st.just("B"), "flow": st.sampled_from(["http", "tcp", "udp", "dns"]),
                                    "ops": st.lists(st.sampled_from(["i", "r", "k", "w", "w"]), min_size=2, max_size=8)})
-    return weighted((3, stream), (3, ws), (3, dnsc), (4, h1), (4, h2c), (2, partb))
+    import sim_intercept
+    return weighted((3, stream), (3, ws), (3, dnsc), (4, h1), (4, h2c), (2, partb), (3, sim_intercept.strategy()))
 
 
 def run(ctx):
